@@ -45,6 +45,10 @@ def emit_readable(ctx, repo):
     ctx.call(R6B.r_flow_plain_agree, repo)
     ctx.call(R6B.r_option_immutable, repo, EMIT_CLASSES)
     ctx.call(RO.r_option_normalised, repo)
+    ctx.call(R6B.r_bang_escaped, repo)
+    ctx.call(R6B.r_block_increment_relative, repo)
+    ctx.call(R6B.r_grown_state_reset, repo, EMIT_CLASSES, 3)
+    ctx.call(R6B.r_tag_handles_sorted, repo)
 
 
 def scan_reference(ctx, repo):
@@ -65,6 +69,7 @@ def scan_reference(ctx, repo):
     ctx.call(RRD.r_lookahead_sufficient, repo)
     ctx.call(R6B.r_uri_escapes_joined, repo)
     ctx.call(R6B.r_one_token_per_fetch, repo)
+    ctx.call(R6B.r_block_increment_relative, repo)
 
 
 def reader_positions(ctx, repo):
@@ -78,6 +83,8 @@ def reader_positions(ctx, repo):
     ctx.call(RX.r_column_per_char, repo)
     ctx.call(RX.r_mark_from_position, repo)
     ctx.call(R6B.r_str_input_verbatim, repo)
+    ctx.call(R6B.r_printable_per_character, repo)
+    ctx.call(R6B.r_read_only_in_update_raw, repo)
     ctx.call(R6B.r_bom_prefix_fits, repo)
 
 
